@@ -677,6 +677,8 @@ impl<'de> Deserializer<'de> {
         let id = PrincipalBytes::read(&mut self.input)?;
         let len = self.read_len()?;
         let meth = self.borrow_bytes(len)?;
+        // The method name is a text value: it must be UTF-8 even when the reference is only skipped.
+        std::str::from_utf8(meth).map_err(Error::msg)?;
         self.add_cost(
             std::cmp::max(30, id.len as usize)
                 .saturating_add(len)
